@@ -603,7 +603,7 @@ def apalache_obligations(V, wd):
             jtmp = os.path.join(wd, "jtmp")
             os.makedirs(jtmp, exist_ok=True)
             p = subprocess.run(["apalache-mc", "check", "--cinit=CInit", *args, f"--out-dir={wd}/apalache_{name}", "TokenizerInt.tla"],
-                               cwd=wd, capture_output=True, text=True, timeout=600,
+                               cwd=wd, capture_output=True, text=True, timeout=300,
                                env=dict(os.environ, JVM_ARGS=(os.environ.get("JVM_ARGS", "") + " -Djava.io.tmpdir=" + jtmp).strip()))
             out = p.stdout[-400:]
             ok = "EXITCODE: OK" in p.stdout
